@@ -191,6 +191,14 @@ def mapSubs (subs : List (String × Region)) (f : Region → M (Region × Region
 
 def rotN (n : List Nat) (i1 i2 : Nat) (k : Int) : List Nat := if isOdd k then swapAt n i1 i2 else n
 
+/-- periodic directions turn with the mesh: for odd `k` the two (single-character) axis names
+are swapped in the `bc` string -/
+def rotBc (bc a1 a2 : String) (k : Int) : String :=
+  if isOdd k && !(bc == "neumann" || bc == "dirichlet" || bc == "") && a1.length == 1 && a2.length == 1 then
+    String.ofList (bc.toList.map fun c =>
+      if [c] = a1.toList then a2.toList.headD c else if [c] = a2.toList then a1.toList.headD c else c)
+  else bc
+
 /-- the reference point the subregions are transformed about -/
 def subRef (m : Mesh) (ref : Option (List Rat)) : Option (List Rat) := some (ref.getD m.region.center)
 
@@ -221,9 +229,9 @@ def stepM (m : Mesh) : Op → M (Mesh × Mesh)
     | _, _, .error e, _ => .error e
     | _, _, _, .error e => .error e
     | .ok (_, r'), .ok subs', .ok i1, .ok i2 =>
-      if i then .ok ({ m with region := r', n := rotN m.n i1 i2 k, subs := subs' },
-                     { m with region := r', n := rotN m.n i1 i2 k, subs := subs' })
-      else match mkMesh? r' (rotN m.n i1 i2 k) m.bc subs' with
+      if i then .ok ({ m with region := r', n := rotN m.n i1 i2 k, bc := rotBc m.bc a1 a2 k, subs := subs' },
+                     { m with region := r', n := rotN m.n i1 i2 k, bc := rotBc m.bc a1 a2 k, subs := subs' })
+      else match mkMesh? r' (rotN m.n i1 i2 k) (rotBc m.bc a1 a2 k) subs' with
         | .error e => .error e
         | .ok m' => .ok (m, m')
 
